@@ -79,6 +79,9 @@ type runner struct {
 	stats    map[string]*epStat
 	timeouts int64
 	lost     int64
+	hung     atomic.Bool    // some case was reported as non-terminating (fast path for giveUp)
+	stuck    map[string]int // entry point -> cases reported as non-terminating
+	skipped  int64          // cases not run after an entry point was given up
 	stop     chan struct{}
 }
 
@@ -88,7 +91,7 @@ var (
 )
 
 func newRunner(c *fw.Ctx) *runner {
-	r := &runner{c: c, active: map[*worker]struct{}{}, stats: map[string]*epStat{}, stop: make(chan struct{})}
+	r := &runner{c: c, active: map[*worker]struct{}{}, stats: map[string]*epStat{}, stuck: map[string]int{}, stop: make(chan struct{})}
 	r.deadline = 20 * time.Second
 	if s := os.Getenv("C03_DEADLINE_S"); s != "" {
 		var n int
@@ -127,6 +130,8 @@ func (r *runner) monitor() {
 				stage = *p
 			}
 			r.timeouts++
+			r.stuck[ci.ep]++
+			r.hung.Store(true)
 			who := ci.ep
 			if stage != stDecode {
 				who = stageOwner(stage)
@@ -200,6 +205,9 @@ func (r *runner) newWorker(p *obsPool) *worker {
 }
 
 func (r *runner) retire(w *worker, abandoned bool) {
+	if !abandoned {
+		r.flush(w)
+	}
 	r.mu.Lock()
 	defer r.mu.Unlock()
 	delete(r.active, w)
@@ -207,6 +215,13 @@ func (r *runner) retire(w *worker, abandoned bool) {
 		return // its goroutine may still be running and owns w.stats and w.obs
 	}
 	w.pool.put(w.obs)
+}
+
+// flush merges a worker's counters into the runner's (called by the worker
+// itself after every chunk, so an abandoned worker loses at most one chunk).
+func (r *runner) flush(w *worker) {
+	r.mu.Lock()
+	defer r.mu.Unlock()
 	for k, s := range w.stats {
 		d := r.stats[k]
 		if d == nil {
@@ -219,8 +234,21 @@ func (r *runner) retire(w *worker, abandoned bool) {
 		d.ObserverCalls += s.ObserverCalls
 		d.HelperCalls += s.HelperCalls
 		d.Truncated += s.Truncated
+		*s = epStat{}
 	}
-	w.stats = map[string]*epStat{}
+}
+
+// giveUp reports whether cases of this entry point are no longer run because it
+// already produced several non-terminating cases (each of which costs a leaked,
+// spinning goroutine).
+func (r *runner) giveUp(ep string) bool {
+	r.mu.Lock()
+	defer r.mu.Unlock()
+	if r.stuck[ep] >= 3 {
+		r.skipped++
+		return true
+	}
+	return false
 }
 
 func (w *worker) stat(ep string) *epStat {
@@ -244,7 +272,7 @@ func (w *worker) end() {
 }
 
 // each enumerates every index in [0,n) exactly once on `par` workers. A worker
-// stuck in a non-terminating call is reported by the monitor and, after three
+// stuck in a non-terminating call is reported by the monitor and, after 1.5
 // deadlines, abandoned so that the run can continue (its goroutine leaks).
 func (r *runner) each(n int64, par int, o *obsPool, f func(w *worker, i int64)) {
 	if n <= 0 {
@@ -295,6 +323,7 @@ func (r *runner) each(n int64, par int, o *obsPool, f func(w *worker, i int64)) 
 						return
 					}
 				}
+				r.flush(w)
 			}
 		}()
 	}
@@ -309,7 +338,7 @@ func (r *runner) each(n int64, par int, o *obsPool, f func(w *worker, i int64)) 
 				if state[k].Load() != 0 {
 					continue
 				}
-				if st := w.start.Load(); st != 0 && time.Duration(now-st) > 3*r.deadline && state[k].CompareAndSwap(0, 2) {
+				if st := w.start.Load(); st != 0 && time.Duration(now-st) > r.deadline+r.deadline/2 && state[k].CompareAndSwap(0, 2) {
 					w.abandoned.Store(true)
 					left.Add(-1)
 					r.mu.Lock()
@@ -566,7 +595,7 @@ func Run(c *fw.Ctx) {
 	c.Extra("reflective_methods_skipped_as_mutators", skl)
 	c.Extra("helpers_invoked", helperNames())
 	c.Extra("phase_wall_s", phase)
-	c.Extra("watchdog", map[string]any{"deadline_s": r.deadline.Seconds(), "timeouts": r.timeouts, "workers_abandoned": r.lost, "goroutines_at_end": runtime.NumGoroutine()})
+	c.Extra("watchdog", map[string]any{"deadline_s": r.deadline.Seconds(), "timeouts": r.timeouts, "workers_abandoned": r.lost, "cases_not_run_after_an_entry_point_hung_3_times": r.skipped, "goroutines_at_end": runtime.NumGoroutine()})
 	c.Assume(
 		"the watchdog is a wall-clock deadline per case (goroutine based, not a step counter): "+r.deadline.String()+"; a case that exceeds it is reported as non-termination",
 		"niladic methods whose name starts with Set/Add/Update/Del/Delete/Remove/Reset/Clear/... are mutators, not read-only uses, and are not called (listed in reflective_methods_skipped_as_mutators)",
